@@ -116,6 +116,16 @@ class Exec:
                 except Exception: pass
                 return Opaque()
             if m and m.startswith("cutplace.") and a: return self.lookup_global(S.module(m.split(".")[1]), a)
+            if a is not None and m:
+                # from <external module> import <a>: a submodule stays a module reference, anything else is an external callable / constant
+                import importlib, types
+                try:
+                    obj = getattr(importlib.import_module(m), a)
+                    if not isinstance(obj, types.ModuleType):
+                        if isinstance(obj, (int, str)) and not isinstance(obj, bool): return obj
+                        return BuiltinRef(a)
+                except Exception:
+                    pass
             return ModRef(name)       # external module (decimal, time, copy, token ...)
         if name in BUILTIN_EXC: return BuiltinExcClass(name)
         if name in BUILTINS: return BuiltinRef(name)
@@ -544,6 +554,8 @@ class Exec:
             import operator
             f = {ast.Add: operator.add, ast.Sub: operator.sub, ast.Mult: operator.mul, ast.FloorDiv: operator.floordiv, ast.Mod: operator.mod, ast.Pow: operator.pow}[type(op)]
             yield st, f(a, b); return
+        if isinstance(op, ast.Mult) and isinstance(a, list) and len(a) == 1 and isinstance(b, Sym) and b.ty.kind == "int":
+            yield st, RepeatList(a[0], b); return         # [x] * n
         if isinstance(a, UFL) or isinstance(b, UFL): raise Unsupported("list arithmetic")
         if isinstance(a, Opaque) or isinstance(b, Opaque): yield st, Opaque(); return
         if isinstance(a, Sym) and a.ty.kind == "opt":
@@ -1162,6 +1174,9 @@ class Closure(FuncRef):
         super().__init__(mod, cls, node, None); self.def_depth = def_depth
     @property
     def qualname(self): return self.mod.name + ".<closure>." + self.node.name
+class RepeatList:
+    """[item] * count with a symbolic count"""
+    def __init__(self, item, count): self.item = item; self.count = count
 class FallibleIter:
     """abstract iterator over `seq` that raises (via raise_fn(ex, st) -> (st, Raise)*) instead of delivering element fail_at"""
     def __init__(self, seq, fail_at, raise_fn): self.seq = seq; self.fail_at = fail_at; self.raise_fn = raise_fn
